@@ -331,8 +331,8 @@ def run_hist(h, wsdir, deadline):
 def header_changed(h, upto):
     """has any text up to op `upto` declared another parent than the start-up disk?"""
     for op in h.ops[:upto + 1]:
-        if op["k"] in ("change", "save") and op["text"][1] != h.disk[op["d"]][1]:
-            return True
+        if op["k"] in ("change", "save") and (op["text"][1] != h.disk[op["d"]][1] or op["text"][2] in ("empty", "blank")):
+            return True      # another parent, or no class header at all any more (an emptied document)
     return False
 
 
